@@ -116,7 +116,7 @@ var directiveKW = map[string]bool{
 	"spec": true, "func": true, "extern": true, "mode": true, "requires": true, "ensures": true, "modifies": true,
 	"nopanic": true, "allocbound": true, "unfold": true, "loop": true, "site": true, "ghost": true, "lemma": true, "assume": true,
 	"prop": true, "trusted": true, "pure": true, "end": true, "abstract": true,
-	"audit": true, "transitions": true, "init-store": true,
+	"audit": true, "transitions": true, "init-store": true, "deltas": true,
 	"monitor": true, "cond": true, "protects": true, "invariant": true, "holds": true, "init": true, "counter": true, "token": true, "frozen": true,
 	"uses": true,
 }
@@ -332,6 +332,15 @@ func ParseSpecFile(fset *token.FileSet, f *ast.File) (*SpecFile, error) {
 					curAudit.Trans = append(curAudit.Trans, ts...)
 				case "init-store":
 					curAudit.InitStores = append(curAudit.InitStores, splitTop(rest)...)
+				case "deltas":
+					// the field is a counter: Add with one of the listed constants is the only write
+					for _, part := range splitTop(rest) {
+						v, err := strconv.ParseInt(strings.TrimPrefix(strings.TrimSpace(part), "+"), 0, 64)
+						if err != nil {
+							return nil, fmt.Errorf("%s:%d: bad delta %q", sf.Path, d.line, part)
+						}
+						curAudit.Deltas = append(curAudit.Deltas, v)
+					}
 				default:
 					return nil, fmt.Errorf("%s:%d: directive %q not allowed in audit", sf.Path, d.line, kw)
 				}
